@@ -1,6 +1,6 @@
 #!/bin/sh
 # try_seed.sh <patch> <Cxx> [tier]: apply a patch to the scratch worktree, run the check against it, undo
-P="$(realpath "$1")"; ID="$2"; TIER="${3:-quick}"; WT=/tmp/wt/mine
+P="$(realpath "$1")"; ID="$2"; TIER="${3:-quick}"; WT="${SEED_WT:-/tmp/wt/mine}"
 git -C $WT checkout -q -- . && git -C $WT apply "$P" || exit 9
 VERIF_REPO=$WT /verif/vf $ID $TIER > /tmp/try.$$.log 2>&1; rc=$?
 git -C $WT checkout -q -- .
